@@ -62,6 +62,7 @@ func c08Bounds(c *Ctx) {
 			if how == "" {
 				how = "no dominating guard bounds it"
 			}
+			c.nextAlt = s.AltKey(c)
 			c.Bad(rule, s.Key(), s.Pos, "%s in the framer is neither proven by the compiler nor discharged: %s; a length field or fragment size chosen by the client panics the tunnel instead of ending it with an error", s.Expr, how)
 		}
 	}
